@@ -62,10 +62,24 @@ func c01Case(r *evid.Run, tier string, idx int, g *rng.R) {
 	if tier == "thorough" && idx%10 == 0 {
 		o.MaxNodes = 300
 	}
+	if idx%25 == 11 {
+		o.MaxNodes = 12
+	}
 	d := adoc.Generate(g, o)
 	if o.NS > 0 && g.P(40) {
 		adoc.NSQuirks(g, d, true)
 		d.Finish()
+	}
+	if idx%25 == 11 {
+		// a wide element and an element with many attributes: sizes around the usual strategy thresholds
+		ws := adoc.Thresholds[:8]
+		if tier == "thorough" {
+			ws = adoc.Thresholds
+		}
+		adoc.Widen(g, d, rng.Pick(g, ws), false)
+		adoc.ManyAttrs(g, d, rng.Pick(g, []int{5, 9, 12, 16, 17, 40}))
+		d.Finish()
+		r.Count("cases_with_wide_elements", 1)
 	}
 	w, err := newWorld(d)
 	if err == nil && idx%4 == 3 {
